@@ -8,7 +8,19 @@ namespace CogentModel.C07
 open CogentModel.Ctl CogentModel.Gen.C07Ctl
 variable {V : Type} [Inhabited V]
 
-/-- operations on a ParameterController; `updateAll` is `update_intermediate_values()` (every definition marked),
+/-- hand model of `ParameterController.update_from_calculator(calc)`: every LEAF definition's setting becomes the
+value the calculator holds for it, every leaf is marked, then the dirty definitions are recomputed -/
+def fromCalc (g : Ctl.Graph V) (s : Ctl.St V) (cv : Nat → V) : Ctl.St V :=
+  Ctl.updateIntermediate g
+    { s with setting := fun j => if (List.range g.length).contains j && Prim.isLeaf g j then cv j else s.setting j,
+             changed := s.changed ++ (List.range g.length).filter (fun k => Prim.isLeaf g k) }
+
+/-- hand model of what `make_calculator()` does to the controller: `defn.update()` on EVERY definition in
+topological order, whatever the dirty set and the suspension flag say (neither is touched) -/
+def refreshAll (g : Ctl.Graph V) (s : Ctl.St V) : Ctl.St V :=
+  { s with values := (Ctl.updateLoop g (List.range g.length) { s with changed := List.range g.length }).values }
+
+/-- operations on a ParameterController; `updateAll` is `update_intermediate_values()` (every definition marked), `fromCalc` is `update_from_calculator`,
 an `assign` may name a derived definition (then `assign_all` raises ValueError) -/
 inductive GOp (V : Type) where
   | assign (k : Nat) (v : V)
@@ -16,6 +28,8 @@ inductive GOp (V : Type) where
   | exit
   | xexit
   | updateAll
+  | fromCalc (cv : Nat → V)    -- update_from_calculator: the hand-back at the end of optimise()
+  | makeCalc                   -- make_calculator(): every definition recomputed (hand model `refreshAll`)
 
 /-- one operation executed by the TRANSLATED methods; the `old` flag each `updates_postponed` frame holds lives on
 `stack` (the python call stack of the generator frames) -/
@@ -31,6 +45,8 @@ def genStep (g : Ctl.Graph V) (s : Ctl.St V) : GOp V → Except String (Ctl.St V
     | [] => .ok s
     | old :: rest => updates_postponed_xexit g { s with stack := rest } old
   | .updateAll => update_intermediate_values g s none
+  | .fromCalc cv => update_from_calculator g s cv
+  | .makeCalc => .ok (refreshAll g s)
 
 /-- a history; an operation that raises leaves the state it raised in (Except discards nothing here: the translated
 `assign_all` raises before its first assignment) -/
